@@ -8,7 +8,7 @@ EXPLANATION = "see DESIGN.md C12"
 
 
 def units(tier):
-    return [F.U_ION_MASS, F.U_NAT_RATIO, F.U_NATDENS_GET, F.U_NATDENS_SET] + F.U_INIT + F.U_CELL_VOLUME + [F.U_CELL_VOLUME_MISSING] + F.U_VOLUME + [F.U_SUBSTITUTION]
+    return [F.U_ION_MASS, F.U_NAT_RATIO, F.U_NATDENS_GET, F.U_NATDENS_SET] + F.U_INIT + F.U_CELL_VOLUME + [F.U_CELL_VOLUME_MISSING] + F.U_VOLUME + [F.U_SUBSTITUTION] + F.U_FORMULA_OF_FORMULA
 
 
 def runner_tasks(tier):
